@@ -23,7 +23,7 @@ PROPS = {
             'expect': ['gen_hasref:trait LinearScaledUnit::ratio', 'gen_hasref:trait HasRefUnit::equiv_amount',
                        'gen_hasref:trait HasRefUnit::convert', 'gen_hasref:lemma_C01_L1_requested_unit',
                        'gen_hasref:lemma_C01_L2_same_unit_identity', 'gen_hasref:lemma_C01_L3_equiv_amount_is_converted_amount', 'lemmas_m1_f64:lemma_C01_L4_f64_converted_magnitude']},
-    'C02': {'level': 'proof', 'quick': ['gen_hasref', 'lemmas_m1_f64', 'lemmas_m1_dec'] + TYPES_REF, 'thorough': TYPES_FIX,
+    'C02': {'level': 'proof', 'quick': ['gen_hasref', 'lemmas_m1_f64', 'lemmas_m1_dec'] + TYPES_REF + ['kani_q_f64:m0'], 'thorough': TYPES_FIX,
             'expect': ['gen_hasref:trait HasRefUnit::eq', 'gen_hasref:trait HasRefUnit::partial_cmp',
                        'gen_hasref:lemma_C02_L3_eq_symmetric', 'gen_hasref:lemma_C02_L3_cmp_antisymmetric',
                        'gen_hasref:lemma_C02_L3_cmp_equal_iff_eq', 'gen_hasref:lemma_C02_L1_same_unit_is_amount_comparison', 'lemmas_m1_f64:lemma_C02_L2_f64_physical_order']},
@@ -33,7 +33,7 @@ PROPS = {
     'C04': {'level': 'proof', 'quick': ['gen_hasref', 'lemmas_m1_f64', 'lemmas_m1_dec'] + TYPES_REF, 'thorough': TYPES_FIX,
             'expect': ['gen_hasref:trait HasRefUnit::_fit', 'lemmas_m1_f64:lemma_C04_f64_product_magnitude_fitted', 'lemmas_m1_f64:lemma_C04_f64_quotient_magnitude_natural',
                        'lemmas_m1_f64:lemma_C04_roundtrip_magnitude']},
-    'C05': {'level': 'proof', 'quick': ['gen_hasref'] + TYPES_REF + ['kani_q_f64:ufs', 'kani_q_f64:fit', 'kani_astro_f64:ufs', 'kani_astro_f64:fit'],
+    'C05': {'level': 'proof', 'quick': ['gen_hasref'] + TYPES_REF + ['kani_q_f64:ufs', 'kani_q_f64:fit', 'kani_q_f64:m0', 'kani_astro_f64:ufs', 'kani_astro_f64:fit'],
             'thorough': TYPES_FIX + ['kani_q_dec:ufs', 'kani_fix_f64:ufs', 'kani_fix_f64:fit'],
             'expect': ['gen_hasref:trait HasRefUnit::_fit', 'gen_hasref:lemma_C05_natural_unit_product', 'gen_hasref:lemma_C05_natural_unit_quotient',
                        'gen_hasref:lemma_C05_fitted_unit_product', 'gen_hasref:lemma_C05_fitted_unit_quotient',
